@@ -766,8 +766,10 @@ func (g *Gen) Case(i int) *Case {
 		// metrics, aggregated and rated buckets), with constant and moving quantiles
 		q := g.pick("0.5", "0.9", "0.99", "0", "1", "-1", "2", "NaN", "scalar(n)", "time() / 1e10", "0.25")
 		c.Query = fmt.Sprintf("histogram_quantile(%s, %s)", q, g.histArg(c, 1))
-		if g.chance(0.2) {
-			c.Query = g.pick("sum(", "abs(", "max by (a) (") + c.Query + ")"
+		if g.chance(0.35) {
+			c.Query = g.pick("sum(", "abs(", "max by (a) (", "sum by (a, p) (", "count without (a) (", "sum by () (") + c.Query + ")"
+		} else if g.chance(0.1) {
+			c.Query = g.pick("sum by (a) (", "max without (b) (", "count by (c, a) (") + "timestamp(" + g.selectorCore(g.metric()) + "))"
 		}
 	case "aggparam":
 		// aggregation parameters at and beyond the edges of their domain
